@@ -18,11 +18,12 @@ LEVEL_TEXT = ("PARTIAL claim. Decided: (a) the Euler-characteristic gate on smal
 EXPLANATION = LEVEL_TEXT
 BOUNDS = {
     "quick": "square placement: all n >= 4 (unbounded); circle placement: n in [3,12]; gate and storage: disks of 1-3 triangles and a "
-             "4-triangle fan, the tetrahedron surface (sphere) and an 8-triangle annulus",
+             "4-triangle fan, the tetrahedron surface (sphere) and an 8-triangle annulus; circle / square / custom border for the gate; storage with and "
+             "without an earlier run of the other shape on the same mesh object",
     "thorough": "same, plus the 3x3 grid disk for storage",
 }
 OUTSIDE = ("interior vertices at the weighted average of their neighbours; no flipped / zero-area triangle (Tutte's theorem about the "
-           "solution of the linear system solved by scipy.sparse.linalg.spsolve); custom boundaries")
+           "solution of the linear system solved by scipy.sparse.linalg.spsolve); placement of custom boundaries")
 ASSUMPTIONS = ["scipy.sparse.linalg.spsolve replaced by fresh symbolic reals for the storage obligation (its result is irrelevant to where "
                "values are stored)", "translator of kernelsmt trusted; validated against the real _initialize_boundary for n in [4,13]"]
 STUBS = ["scipy.sparse.linalg.spsolve in mouette.processing.parametrization.tutte -> vector of fresh symbolic reals",
@@ -180,10 +181,16 @@ def gate(names):
         V, faces, chi = MESHES[name]
         rot = sx.choice("rotation", 3)
         faces = [tuple(F[(i + rot) % 3] for i in range(3)) for F in faces]
-        mode = ["circle", "square"][sx.choice("mode", 2)]
+        mode = ["circle", "square", "custom"][sx.choice("mode", 3)]
         mesh = meshgen.build(meshgen.generic_coords(V), (), faces)
+        kw = {}
+        if mode == "custom":
+            # one position per border vertex, on a circle (the documented shape of the argument)
+            nb = len(mesh.boundary_vertices)
+            kw["custom_boundary"] = np.array([[np.cos(2 * np.pi * i / max(nb, 1)), np.sin(2 * np.pi * i / max(nb, 1))] for i in range(nb)]).reshape(nb, 2)
+        name = name + (", custom boundary" if mode == "custom" else "")
         try:
-            TutteEmbedding(mesh, boundary_mode=mode, save_on_corners=sx.flag("save_on_corners"))()
+            TutteEmbedding(mesh, boundary_mode="circle" if mode == "custom" else mode, save_on_corners=sx.flag("save_on_corners"), **kw)()
             ran = True
         except Exception as e:
             ran = False
@@ -219,8 +226,23 @@ def storage(names):
                     self.calls += 1
                     return out
             res = {}
+            earlier = sx.flag("an_earlier_run_on_the_same_mesh_with_the_other_shape")
+            other = [[sx.real("old%d_%d" % (c, i)) for i in range(nb_int)] for c in range(2)] if earlier else None
             for corners in (False, True):
                 mesh = meshgen.build(meshgen.generic_coords(V), (), faces)
+                if earlier:
+                    # the same mesh object was parametrized before with the other border shape (and other interior values):
+                    # its attributes must not leak into this run
+                    keep, sols[:] = list(sols), other
+                    try:
+                        with shims.rebound(TT, linalg=Solve()):
+                            TT.TutteEmbedding(mesh, boundary_mode="square" if mode == "circle" else "circle", use_cotan=use_cotan,
+                                              save_on_corners=corners).run()
+                    except Exception as e:
+                        sx.check(False, "Tutte embedding raised on a disk [%s]" % name, detail=repr(e))
+                        return
+                    finally:
+                        sols[:] = keep
                 with shims.rebound(TT, linalg=Solve()):
                     t = TT.TutteEmbedding(mesh, boundary_mode=mode, use_cotan=use_cotan, save_on_corners=corners)
                     try:
@@ -235,6 +257,14 @@ def storage(names):
                 for c in mc.connectivity.vertex_to_corners(v):
                     for k in range(2):
                         sx.check_eq(uv_c[c][k], uv_v[v][k], "per-vertex and per-corner outputs of the Tutte embedding agree", tol=1e-12)
+            # the stored attribute is the output
+            for v in range(V):
+                for k in range(2):
+                    sx.check_eq(mv.vertices.get_attribute("uv_coords")[v][k], uv_v[v][k], "the 'uv_coords' vertex attribute holds the output of the last run", tol=1e-12)
+            interior = [int(v) for v in mv.interior_vertices]
+            for i, v in enumerate(interior):
+                for k in range(2):
+                    sx.check_eq(uv_v[v][k], sols[k][i], "interior vertices receive the solution of this run's linear system", tol=1e-12)
             # border vertices in border order sit on the placement computed for them
             from mouette.processing.border import extract_border_cycle
             cyc, _ = extract_border_cycle(mv)
